@@ -3,7 +3,7 @@
    Any other escape sequence, any unknown parameter, makes the run fail (None),
    so success also says "nothing but SGR sequences apart from the text". *)
 From Curtsies Require Import Model.Base.
-Open Scope N_scope.
+Local Open Scope N_scope.
 
 Inductive pstate :=
 | Ground
